@@ -89,17 +89,17 @@ type Obj struct {
 
 // Thread is one managed goroutine.
 type Thread struct {
-	id     int
-	cid    uint64
-	Site   string
-	wake   chan struct{}
-	pend   *pend
-	done   bool
-	hist   uint64
-	nops   uint64
-	nspawn uint64
-	nobj   uint64
-	sel    selResult
+	id       int
+	cid      uint64
+	Site     string
+	wake     chan struct{}
+	pend     *pend
+	done     bool
+	hist     uint64
+	nops     uint64
+	nspawn   uint64
+	nobj     uint64
+	sel      selResult
 	panicMsg string
 }
 
@@ -181,6 +181,7 @@ type Exec struct {
 	lazyObjs map[any]*Obj
 	keep     []any
 	eager    []eagerFrame
+	observer func(op, obj string)
 	lenient  bool
 	trans    int64
 	Values   map[string]any // per-execution scratch for harness / fakes
@@ -237,6 +238,9 @@ func (ex *Exec) note(t *Thread, k uint8, o *Obj, r uint64) {
 	t.hist = mix(t.hist, uint64(k), oc, os_, r)
 	t.nops++
 	ex.thrSum += mix(t.cid, t.hist) - mix(t.cid, old)
+	if ex.observer != nil && o != nil {
+		ex.observer(kindName[k], o.name)
+	}
 	if ex.tracing {
 		on := ""
 		if o != nil {
@@ -884,4 +888,12 @@ func SetValue(k string, v any) {
 		return
 	}
 	curExec.Values[k] = v
+}
+
+// Observe installs a per-execution observer that is told about every operation a thread applies to a
+// named synchronisation object (oracle use: "at the moment of wg.add on X, is flag Y set?").
+func Observe(f func(op, obj string)) {
+	if ex := curExec; ex != nil {
+		ex.observer = f
+	}
 }
